@@ -16,6 +16,8 @@ from hv import terms as TT
 from hv.core import Outcome
 from hv.props import c05
 
+from typing import Literal as _Literal  # noqa: E402
+
 PID = "C04"
 LEVEL = "exploration"
 TECHNIQUE = "generated classes and valid instances x generated scripts of mutation/update/copy/equality attempts; deep-frozen snapshot invariant and algebraic equality laws"
@@ -28,6 +30,7 @@ RULE = (
     "cross-class comparison; distinct = distinct class+arguments+script"
 )
 RULE += '; an instance is compared both ways with its counterpart in every other specialisation of its generic class'
+RULE += '; many other specialisations of the generic class may come and go before the same specialisation is asked for again'
 LEVEL_TEXT = (
     "Invariant checking over generated histories: a deep-frozen snapshot of the instance must be unchanged after every "
     "attempt; updated() is compared attribute-by-attribute with the conformance oracle's stored form; equality is "
@@ -180,6 +183,7 @@ def run_case(case) -> Outcome:
         return out
     snap = freeze(x)
     classes = set()
+    churned = [0]
 
     def unchanged(what):
         now = freeze(x)
@@ -319,6 +323,13 @@ def run_case(case) -> Outcome:
             if freeze(target) != before:
                 out.violate("immutable", f"C04.immutable/stored-container-mutable/{op['target']}", f"{src}args={case['args']}\nbefore={before}\nafter={freeze(target)}")
             unchanged("inplace")
+        elif o == "churn":
+            # many OTHER specialisations of the same generic class come and go (a long-running process)
+            if cls["generic"]:
+                for i in range(op["n"]):
+                    mod.C0[_Literal[f"churn-{churned[0] + i}"]]  # distinct, supported type arguments
+                churned[0] += op["n"]
+                classes.add("many-other-specialisations-in-between")
         elif o == "eq":
             other_kind = op["other"]
             y = None
@@ -327,7 +338,14 @@ def run_case(case) -> Outcome:
                 if other_kind == "self":
                     y, expect_equal = x, True
                 elif other_kind == "twin":
-                    y, expect_equal = C(**build_args(case["args"])), True
+                    C_again = C
+                    if cls["generic"] and cls.get("targ") is not None:
+                        # the specialisation is asked for AGAIN (`Box[int]` written at another place): as long as the first
+                        # one is alive it is the same class, however many other specialisations were made in between
+                        C_again = mod.C0[TT._targ_type(cls["targ"])]
+                        if C_again is not C:
+                            out.violate("eq", "C04.eq/same-specialisation-is-another-class", f"{src}{C!r} vs {C_again!r} (after {churned[0]} other specialisations)")
+                    y, expect_equal = C_again(**build_args(case["args"])), True
                 elif other_kind == "diff1":
                     n = names[op.get("attr", 0) % len(names)]
                     alt = TT.build(op["val"], env) if op.get("val") is not None else None
@@ -492,7 +510,11 @@ def strategy(tier):
 
         script = []
         for _ in range(draw(st.integers(3, 8))):
-            kind = draw(st.sampled_from(["setattr", "delattr", "mutate_arg", "mutate_arg", "updated", "updated", "copy", "deepcopy", "eq", "eq", "inplace"]))
+            kind = draw(st.sampled_from(["setattr", "delattr", "mutate_arg", "mutate_arg", "updated", "updated", "copy", "deepcopy", "eq", "eq", "inplace", *(["churn"] if cls["generic"] else [])]))
+            if kind == "churn":
+                script.append({"o": "churn", "n": draw(st.sampled_from([3, 40, 140, 300]))})
+                script.append({"o": "eq", "other": "twin", "attr": 0, "val": None})
+                continue
             if kind == "setattr":
                 i = draw(idx)
                 script.append({"o": "setattr", "attr": i, "val": good_for(i) or {"v": "int", "x": 1}, "unknown": draw(st.integers(0, 5)) == 0})
